@@ -85,6 +85,12 @@ func NewDG2(data []byte) (*DG2, error) {
 		return nil, fmt.Errorf("[NewDG2] error: %w", err)
 	}
 
+	// the file is ONE data object: the outer tag is that of the first object, and anything behind it would be
+	// covered by the hash in the security object but never shown
+	if len(nodes.Nodes()) != 1 {
+		return nil, fmt.Errorf("[NewDG2] file must consist of exactly one data object (found %d)", len(nodes.Nodes()))
+	}
+
 	rootNode := nodes.NodeByTag(DG2Tag)
 
 	if !rootNode.IsValidNode() {
